@@ -104,7 +104,88 @@ func poolFacts() {
 	}
 }
 
+// stateFacts prints the imports of the package's files (`import\t<file>\t<path>`) and every write to a
+// package-level variable inside a function (`pkgwrite\t<func>\t<var>`): assignments, inc/dec, delete()
+// whose target's root identifier is a package-level var. (Shadowing is ignored: a local with the
+// name of a package variable would show up here and has to be looked at.)
+func stateFacts() {
+	files := []string{"src/storage/rlp/decode.go", "src/storage/rlp/encode.go", "src/storage/rlp/raw.go", "src/storage/rlp/typecache.go"}
+	fset := token.NewFileSet()
+	var parsed []*ast.File
+	pkgVars := map[string]bool{}
+	for _, file := range files {
+		f, err := parser.ParseFile(fset, file, nil, 0)
+		if err != nil {
+			fmt.Fprintln(os.Stderr, err)
+			os.Exit(1)
+		}
+		parsed = append(parsed, f)
+		for _, im := range f.Imports {
+			fmt.Printf("import\t%s\t%s\n", file[len("src/storage/rlp/"):], im.Path.Value[1:len(im.Path.Value)-1])
+		}
+		for _, d := range f.Decls {
+			if gd, ok := d.(*ast.GenDecl); ok && gd.Tok == token.VAR {
+				for _, sp := range gd.Specs {
+					for _, n := range sp.(*ast.ValueSpec).Names {
+						pkgVars[n.Name] = true
+					}
+				}
+			}
+		}
+	}
+	var root func(e ast.Expr) string
+	root = func(e ast.Expr) string {
+		switch x := e.(type) {
+		case *ast.Ident:
+			return x.Name
+		case *ast.IndexExpr:
+			return root(x.X)
+		case *ast.SelectorExpr:
+			return root(x.X)
+		case *ast.StarExpr:
+			return root(x.X)
+		case *ast.ParenExpr:
+			return root(x.X)
+		}
+		return ""
+	}
+	for _, f := range parsed {
+		for _, d := range f.Decls {
+			fd, ok := d.(*ast.FuncDecl)
+			if !ok || fd.Body == nil {
+				continue
+			}
+			name := fd.Name.Name
+			seen := map[string]bool{}
+			hit := func(v string) {
+				if pkgVars[v] && !seen[v] {
+					seen[v] = true
+					fmt.Printf("pkgwrite\t%s\t%s\n", name, v)
+				}
+			}
+			ast.Inspect(fd.Body, func(n ast.Node) bool {
+				switch x := n.(type) {
+				case *ast.AssignStmt:
+					if x.Tok != token.DEFINE {
+						for _, l := range x.Lhs {
+							hit(root(l))
+						}
+					}
+				case *ast.IncDecStmt:
+					hit(root(x.X))
+				case *ast.CallExpr:
+					if id, ok := x.Fun.(*ast.Ident); ok && id.Name == "delete" && len(x.Args) > 0 {
+						hit(root(x.Args[0]))
+					}
+				}
+				return true
+			})
+		}
+	}
+}
+
 func main() {
+	stateFacts()
 	poolFacts()
 	want := map[string]map[string]bool{
 		"src/storage/rlp/decode.go": {"Stream.Kind": true, "Stream.willRead": true, "Stream.readKind": true, "Stream.readUint": true},
